@@ -330,6 +330,13 @@ func (e *Engine) packageRule(fr *frame, fn *ssa.Function, args []Value, g *Term,
 		e.stubLog["skip:"+path]++
 		return zeroResults(fn.Signature), true
 	}
+	// generated protobuf code: String() of enums and messages goes through the
+	// reflection runtime (protoimpl.X); formatting is never the subject, so the
+	// result is an opaque constant string
+	if strings.HasSuffix(path, "pb") && fn.Name() == "String" && fn.Signature.Recv() != nil && fn.Signature.Params().Len() == 0 && fn.Signature.Results().Len() == 1 && isStringT(fn.Signature.Results().At(0).Type()) {
+		e.stubLog["opaque:"+path+".String"]++
+		return strConst("<pb>"), true
+	}
 	return nil, false
 }
 
